@@ -17,12 +17,12 @@
 (* A mismatch marks the case BAD and validation resumes with the next      *)
 (* case, so one rejection never hides the rest of the trace.               *)
 (***************************************************************************)
-EXTENDS ResizeChecks, TLC, Json, IOUtils
+EXTENDS ResizeChecks, Threading, TLC, Json, IOUtils
 
 Rec == ndJsonDeserialize(IOEnv.TRACE)
 
-VARIABLES l, nbad, st, slots, cs, pbad, grp, ref
-vars == <<l, nbad, st, slots, cs, pbad, grp, ref>>
+VARIABLES l, nbad, st, slots, cs, pbad, grp, ref, thr, tbad
+vars == <<l, nbad, st, slots, cs, pbad, grp, ref, thr, tbad>>
 
 Unknown == [b \in Bufs |-> -1]
 SlotBufs(rz) == IF rz \in DOMAIN slots THEN slots[rz] ELSE [b \in Bufs |-> 0]
@@ -57,11 +57,13 @@ Adopt(s, e) ==
       [] OTHER -> s
 
 Init == /\ l = 1 /\ nbad = 0 /\ st = InitState /\ slots = << >> /\ cs = [id |-> -1] /\ pbad = "" /\ grp = -1 /\ ref = << >>
+        /\ thr = ThrInit /\ tbad = ""
 
 Begin(e) ==
     /\ e.ev = "begin"
     /\ st' = Upd([InitState EXCEPT !.bufs = SlotBufs(e.rz)], [k |-> "call", args |-> ArgsOf(e)])
     /\ cs' = e /\ pbad' = ""
+    /\ thr' = ThrInit /\ tbad' = ""
     /\ UNCHANGED <<nbad, slots, grp, ref>>
 
 Hook(e) ==
@@ -71,7 +73,15 @@ Hook(e) ==
        ELSE LET s1 == Adopt(st, e)
             IN  IF Ok(s1, e) THEN st' = Upd(s1, e) /\ UNCHANGED pbad
                 ELSE pbad' = "hook-" \o e.k \o "-at-" \o st.pc /\ UNCHANGED st
-    /\ UNCHANGED <<nbad, slots, cs, grp, ref>>
+    /\ UNCHANGED <<nbad, slots, cs, grp, ref, thr, tbad>>
+
+\* a band-splitting event of the rayon layer: must be a step of the Threading specification
+Thr(e) ==
+    /\ e.ev = "thr"
+    /\ IF tbad # "" THEN UNCHANGED <<thr, tbad>>
+       ELSE IF ThrOk(thr, e) THEN thr' = ThrUpd(thr, e) /\ UNCHANGED tbad
+       ELSE tbad' = "threading-" \o e.k \o "-at-" \o thr.pc /\ UNCHANGED thr
+    /\ UNCHANGED <<nbad, st, slots, cs, pbad, grp, ref>>
 
 Ctl(e) ==
     /\ e.ev = "ctl"
@@ -79,7 +89,7 @@ Ctl(e) ==
                   [] e.what = "new" -> [x \in DOMAIN slots \cup {e.rz} |-> IF x = e.rz THEN [b \in Bufs |-> 0] ELSE slots[x]]
                   [] e.what = "clone" -> [x \in DOMAIN slots \cup {e.to} |-> IF x = e.to THEN SlotBufs(e.rz) ELSE slots[x]]
                   [] OTHER -> slots
-    /\ UNCHANGED <<nbad, st, cs, pbad, grp, ref>>
+    /\ UNCHANGED <<nbad, st, cs, pbad, grp, ref, thr, tbad>>
 
 \* verdict of a finished case
 Verdict(e) ==
@@ -95,6 +105,8 @@ Verdict(e) ==
         ELSE IF pipe /\ ~Written(fin) THEN "destination-not-written"
         ELSE IF pipe /\ ~NoStaleRead(fin) THEN "stale-read"
         ELSE IF pipe /\ ~Canonical(fin) THEN "not-canonical"
+        ELSE IF tbad # "" THEN tbad
+        ELSE IF ~ThrJoined(thr) THEN "returned-before-join"
         ELSE ObsVerdict(cs, e, ArgsOf(cs), grp, ref)
 
 End(e) ==
@@ -111,14 +123,14 @@ End(e) ==
     /\ IF "g" \in DOMAIN cs /\ cs.g # grp
        THEN grp' = cs.g /\ ref' = RefOf(e)
        ELSE UNCHANGED <<grp, ref>>
-    /\ UNCHANGED <<cs, pbad>>
+    /\ UNCHANGED <<cs, pbad, thr, tbad>>
 
 Step == /\ l <= Len(Rec)
-        /\ LET e == Rec[l] IN Begin(e) \/ Hook(e) \/ Ctl(e) \/ End(e)
+        /\ LET e == Rec[l] IN Begin(e) \/ Hook(e) \/ Thr(e) \/ Ctl(e) \/ End(e)
         /\ l' = l + 1
 Finish == /\ l = Len(Rec) + 1
           /\ PrintT(<<"DONE", Len(Rec), nbad>>)
           /\ l' = l + 1
-          /\ UNCHANGED <<nbad, st, slots, cs, pbad, grp, ref>>
+          /\ UNCHANGED <<nbad, st, slots, cs, pbad, grp, ref, thr, tbad>>
 Next == Step \/ Finish
 =============================================================================
